@@ -879,6 +879,9 @@ def propagate_fresh_locals(modules, known, rep):
                             uses = [x for x in ast.walk(fn) if isinstance(x, ast.Name) and x.id == name and isinstance(x.ctx, ast.Load)]
                             order = _preorder(fn)
                             p_ok = all(_inside(loop, u) and order[id(u)] > order[id(defn)] for u in uses)
+                if p_ok and isinstance(v, (ast.List, ast.Set, ast.Dict, ast.ListComp, ast.SetComp, ast.DictComp)):
+                    # a mutable object has an identity: only a read-only one (membership tests, iteration, indexing, len) is its display
+                    p_ok = _readonly_in(fn, name)
                 ok, why = p_ok, "single side-effect-free definition"
             if not ok:
                 continue
@@ -898,6 +901,27 @@ def propagate_fresh_locals(modules, known, rep):
                     return node
             fn.body = [S().visit(s) for s in fn.body]
             rep.other.append(f"new local `{name}` in {sc + '.' if sc else ''}{fn.name} replaced by its value in {uses} use(s) ({why})")
+
+
+def _readonly_in(fn, name: str) -> bool:
+    parents = {}
+    for p in ast.walk(fn):
+        for c in ast.iter_child_nodes(p):
+            parents[id(c)] = p
+    for n in ast.walk(fn):
+        if not (isinstance(n, ast.Name) and n.id == name and isinstance(n.ctx, ast.Load)):
+            continue
+        p = parents.get(id(n))
+        if isinstance(p, ast.Compare) and n in p.comparators and all(isinstance(o, (ast.In, ast.NotIn)) for o in p.ops):
+            continue
+        if isinstance(p, (ast.For, ast.comprehension)) and p.iter is n:
+            continue
+        if isinstance(p, ast.Subscript) and p.value is n and isinstance(p.ctx, ast.Load):
+            continue
+        if isinstance(p, ast.Call) and isinstance(p.func, ast.Name) and p.func.id in ("len", "sorted", "frozenset", "tuple", "min", "max", "sum", "any", "all") and n in p.args:
+            continue
+        return False
+    return True
 
 
 def _preorder(fn) -> dict:
